@@ -2,7 +2,9 @@ package main
 
 import (
 	"bytes"
+	"crypto/ed25519"
 	"encoding/asn1"
+	"encoding/binary"
 	"fmt"
 	"math"
 
@@ -107,6 +109,7 @@ func lenClass(n int) string {
 }
 
 func runC17(r *ev.Run) {
+	c17Registry(r)
 	r.Rule = "generated (OID, key body) pairs and near-miss pairs; generated peer ids and candidate texts; non-trivial = case other than the Ed25519 OID with a 32-byte body / other than a canonical peer-id text; distinct = (oid arc count, first arc, data length class) or (text class)"
 	r.Assumptions = []string{
 		"OIDs are restricted to what encoding/asn1 round-trips: >=2 arcs, first<=2, second<40 unless first=2, arcs<=2^31-1 (second arc <=2^31-81 when first=2)",
@@ -456,4 +459,58 @@ func aliasedVariants(k *x509.PublicKey) []*x509.PublicKey {
 	// pair (big, ext) is checked through the k-vs-ext and k-vs-big pairs only if k aliases them, so compare them directly too
 	out = append(out, &x509.PublicKey{Algorithm: k.Algorithm, Data: ext})
 	return out
+}
+
+// c17Registry: keys obtained through one Registry (PublicFromPrivate / StoreVerifier+LoadVerifier paths) must stay what they were:
+// the encoding and fingerprints recorded when a key was produced are compared again after many other keys have been produced
+// through the same Registry, and distinct keys must stay unequal.
+func c17Registry(r *ev.Run) {
+	caseID := "registry-keys"
+	if r.Batch != 0 || !r.Want(caseID) {
+		return
+	}
+	reg := x509.DefaultRegistry()
+	type rec struct {
+		pub  x509.PublicKey
+		wire []byte
+		fp   p2p.PeerID
+	}
+	var recs []rec
+	n := pick(r, 40, 400)
+	for i := 0; i < n; i++ {
+		seed := make([]byte, ed25519.SeedSize)
+		binary.BigEndian.PutUint64(seed, uint64(i)+0xC17)
+		std := ed25519.NewKeyFromSeed(seed)
+		algo, signer := x509.SignerFromStandard(std)
+		priv, err := reg.StoreSigner(algo, signer)
+		if err != nil {
+			r.Inconclusive("c17 registry: StoreSigner: " + err.Error())
+			return
+		}
+		pub, err := reg.PublicFromPrivate(&priv)
+		if err != nil {
+			r.Inconclusive("c17 registry: PublicFromPrivate: " + err.Error())
+			return
+		}
+		r.Eval(1)
+		want := std.Public().(ed25519.PublicKey)
+		if !bytes.Equal(pub.Data, want) {
+			r.Violate("C17/registry-wrong-key", caseID, "PublicFromPrivate returned a key body that is not the public half of the private key", map[string]any{"i": i})
+			return
+		}
+		recs = append(recs, rec{pub, x509.MarshalPublicKey(nil, &pub), p2pkeswarm.DefaultFingerprinter(&pub)})
+		// every key produced so far is still what it was
+		for j := range recs {
+			o := &recs[j]
+			if !bytes.Equal(x509.MarshalPublicKey(nil, &o.pub), o.wire) || p2pkeswarm.DefaultFingerprinter(&o.pub) != o.fp {
+				r.Violate("C17/key-changed-after-later-registry-call", caseID, fmt.Sprintf("key %d, produced through the registry earlier, has a different encoding/fingerprint after key %d was produced through the same registry", j, i), map[string]any{"then": fmt.Sprintf("%x", o.wire), "now": fmt.Sprintf("%x", x509.MarshalPublicKey(nil, &o.pub))})
+				return
+			}
+			if j != i && x509.EqualPublicKeys(&o.pub, &recs[i].pub) {
+				r.Violate("C17/distinct-keys-equal", caseID, fmt.Sprintf("keys %d and %d are different keys but compare equal", j, i), nil)
+				return
+			}
+		}
+	}
+	r.NonTrivial("registry/keys-stay-put")
 }
